@@ -1,5 +1,5 @@
 """C03 - reads see every applied write exactly once during its flush: the publication protocol's order."""
-from . import flushspec, passivespec
+from . import flushspec, passivespec, writerspec
 from ._util import pick
 
 FILTERS = []
@@ -13,4 +13,5 @@ def obligations(ctx):
     out += pick(flushspec.queue_for_flush(ctx), [("B-3", "inflight-before-send")])
     out += pick(flushspec.insert_path(ctx), [("B-4", "passive-before-rotate"), ("B-4b", "queue-gets-rotated-table")])
     out += pick(passivespec.passive_set(ctx), [("B-5", "add"), ("B-5b", "prune")])
+    out += pick(writerspec.accept_row(ctx), [("B-6", "dedup")])
     return out
